@@ -597,21 +597,28 @@ _OPEN = {
 # depth 3 (level 2 is an inner level with both a parent and children), different splits on every level
 _DEEP = [dict(kind="regular", shape0=[1, 2], splits=[[2, 1], [1, 3], [2, 2]]),
          dict(kind="open", shape0=[5], splits=[[2], [1], [3]], padding=[[1], [1], [1]])]
-FIXED = [_REG[n] for n in (2, 3, 4)] + [_OPEN[n] for n in (2, 3, 4)] + _DEEP + [
-    dict(kind="flat", ordering="nest", grid=_DEEP[0]), dict(kind="flat", ordering="serial", grid=_DEEP[1]),
-    dict(kind="hp", nside0=1, depth=2),
+_PHYS = [dict(kind="simpleopen", min_shape=[5, 4], depth=2, window=3, splits=2, distances=None),
+         dict(kind="log", min_shape=[6], depth=2, window=3, splits=2, r_min=0.5, r_max=20.0),
+         dict(kind="brokenlog", min_shape=[6], depth=1, window=3, splits=2, r_min=0.5, r_linthresh=2.0, r_max=20.0)]
+_MG = dict(kind="mgrid", grids=[_REG[2], dict(kind="regular", shape0=[2], splits=[[3], [1]])])
+# quick tier: every grid kind, 3 and 4 axes with unequal lengths, both flat orderings, an inner level (depth 3)
+FIXED_QUICK = [_REG[3], _REG[4], _OPEN[3], _OPEN[4]] + _DEEP + [
+    dict(kind="hp", nside0=1, depth=1),
     dict(kind="mgrid", grids=[_REG[1], _OPEN[1]]),
     dict(kind="mgrid", grids=[dict(kind="regular", shape0=[2], splits=[[2]]), dict(kind="hp", nside0=1, depth=1),
                               dict(kind="regular", shape0=[1, 3], splits=[[3, 1]])]),
-] + [dict(kind="flat", ordering=o, grid=_REG[n]) for o in ("serial", "nest") for n in (1, 2, 3, 4)] + [
-    dict(kind="flat", ordering="serial", grid=_OPEN[n]) for n in (2, 3, 4)] + [
+    dict(kind="flat", ordering="serial", grid=_REG[3]), dict(kind="flat", ordering="serial", grid=_REG[4]),
+    dict(kind="flat", ordering="nest", grid=_REG[3]), dict(kind="flat", ordering="nest", grid=_REG[4]),
+    dict(kind="flat", ordering="serial", grid=_OPEN[3]),
+    dict(kind="flat", ordering="nest", grid=_DEEP[0]), dict(kind="flat", ordering="serial", grid=_DEEP[1]),
     dict(kind="flat", ordering="nest", grid=dict(kind="hp", nside0=1, depth=1)),
-    dict(kind="flat", ordering="serial", grid=dict(kind="mgrid", grids=[_REG[2], dict(kind="regular", shape0=[2], splits=[[3], [1]])])),
-    dict(kind="flat", ordering="nest", grid=dict(kind="mgrid", grids=[_REG[2], dict(kind="regular", shape0=[2], splits=[[3], [1]])])),
-    dict(kind="simpleopen", min_shape=[5, 4], depth=2, window=3, splits=2, distances=None),
-    dict(kind="log", min_shape=[6], depth=2, window=3, splits=2, r_min=0.5, r_max=20.0),
-    dict(kind="brokenlog", min_shape=[6], depth=1, window=3, splits=2, r_min=0.5, r_linthresh=2.0, r_max=20.0),
-]
+    dict(kind="flat", ordering="serial", grid=_MG),
+] + _PHYS
+# thorough tier: the complete families
+FIXED_MORE = [_REG[1], _REG[2], _OPEN[1], _OPEN[2], dict(kind="hp", nside0=1, depth=2)] + [
+    dict(kind="flat", ordering=o, grid=_REG[n]) for o in ("serial", "nest") for n in (1, 2)] + [
+    dict(kind="flat", ordering="serial", grid=_OPEN[n]) for n in (2, 4)] + [dict(kind="flat", ordering="nest", grid=_MG)]
+FIXED = FIXED_QUICK
 
 
 class _Job:
@@ -786,7 +793,7 @@ def misc_requests(ctx):
 
 def run(ctx):
     _jax()
-    specs = [c["spec"] for c in _corpus()] + FIXED
+    specs = [c["spec"] for c in _corpus()] + FIXED_QUICK + ([] if ctx.quick else FIXED_MORE)
     for _ in range(ctx.n(2, 50)):
         specs.append(gen_spec(ctx.rng, ctx.quick))
     check_specs(ctx, specs)
